@@ -227,6 +227,13 @@ impl Database {
 
         let region = regions.create(self, id.to_owned(), start)?;
         layout.insert_region(start, &region);
+        drop(regions);
+        drop(layout);
+
+        // The growth above ran before the layout lock: a concurrent allocation may
+        // have taken the space it made room for.
+        self.set_min_len(start + PAGE_SIZE)?;
+
         Ok(region)
     }
 
